@@ -13,7 +13,7 @@ use neurons::tensor::Tensor;
 pub fn meta(ctx: &Ctx) -> Meta {
     let e = max_epochs(ctx);
     Meta {
-        rule: format!("every validation-loss trajectory in {{rise,fall,equal}}^(E-1) for epoch budgets E in 1..{} x every tolerance T in 1..5, plus tolerances 6..12, 16, 20 with budgets T+1, T+2, T+4 on all trajectories with at most two non-rise events, with validation data (also with print frequencies 1, 2 and beyond the budget on a third of them, a third of them at a tiny scale: loss 2^-20 moving in steps of 2^-27, and a third at a large offset: loss 2^20 moving by one unit in the last place per epoch); every E in 1..{} without; the unmodified learn() is driven through each of them and the commanded pattern is re-derived from the returned vector (only matching runs count). Oracle over what learn() returned: len(train)=n; len(val_loss)=len(val_acc)=n (0 and n=E without validation data); stop(e) := e>T and the last T recorded losses strictly increasing is false for every e<n; if n<E then stop(n). States = (epoch, pattern prefix) pairs visited; transitions = epochs run; non-trivial = trajectories with at least one rise", e, e),
+        rule: format!("every validation-loss trajectory in {{rise,fall,equal}}^(E-1) for epoch budgets E in 1..{} x every tolerance T in 1..5, plus tolerances 6..12, 16, 20 with budgets T+1, T+2, T+4 on all trajectories with at most two non-rise events, with validation data (also with print frequencies 1, 2 and beyond the budget on a third of them, a quarter each after an earlier learn() call on the same network without / with validation data (which leaves the weights untouched), a third of them at a tiny scale: loss 2^-20 moving in steps of 2^-27, and a third at a large offset: loss 2^20 moving by one unit in the last place per epoch); every E in 1..{} without; the unmodified learn() is driven through each of them and the commanded pattern is re-derived from the returned vector (only matching runs count). Oracle over what learn() returned: len(train)=n; len(val_loss)=len(val_acc)=n (0 and n=E without validation data); stop(e) := e>T and the last T recorded losses strictly increasing is false for every e<n; if n<E then stop(n). States = (epoch, pattern prefix) pairs visited; transitions = epochs run; non-trivial = trajectories with at least one rise", e, e),
         bound: format!("E <= {}, T <= 5; complete", e),
         exhaustive: true,
         assumptions: vec!["stop rule read as in the statement's anchor: the window of the last T recorded validation losses is strictly increasing (T-1 comparisons) and more than T epochs have run".into()],
@@ -76,6 +76,34 @@ pub fn check(case: &Kv, rep: &mut Report) {
     let tr: Vec<&Tensor> = ts.iter().collect();
     let vx = vec![&xv];
     let vt = vec![&tv];
+    // "pre": an earlier learn() call on the same network that leaves the weights where they are (targets equal to the
+    // untrained outputs: the absolute-error gradient is exactly zero) - the contract is per call, whatever was run before
+    let zero_ts: Vec<Tensor> = (0..k).map(|_| Tensor::single(vec![0.0])).collect();
+    let ztr: Vec<&Tensor> = zero_ts.iter().collect();
+    let pre_ok = guard(|| match case.opt("pre") {
+        Some("noval") => {
+            lib.learn(&xr, &ztr, None, 1, 3, None);
+        }
+        Some("val") => {
+            lib.learn(&xr, &ztr, Some((&vx, &vt, tol as i32)), 1, tol as i32 + 2, None);
+        }
+        _ => (),
+    });
+    if let Err(e) = pre_ok {
+        rep.violate("C13 learn panics", crate::util::first_line(&e), case);
+        return;
+    }
+    if case.opt("pre").is_some() {
+        rep.count("runs_after_an_earlier_learn_call", 1);
+        match neurons::verif::params(&lib).first().map(|p| crate::libnet::flat(&p.weights[0])) {
+            Some(Ok((_, w))) if w.iter().all(|v| *v == 0.0) => (),
+            _ => {
+                rep.count("steering_mismatch", 1);
+                rep.violate("C13 steering failed (machinery)", "the preparatory learn() call moved the weights".to_string(), case);
+                return;
+            }
+        }
+    }
     let res = guard(|| {
         if with_val {
             lib.learn(&xr, &tr, Some((&vx, &vt, tol as i32)), 1, epochs as i32, print)
@@ -177,6 +205,13 @@ pub fn cases(ctx: &Ctx) -> Vec<Kv> {
                 }
                 if (code + tol) % 3 == 2 {
                     out.push(Kv::new().put("epochs", epochs).put("tol", tol).put("val", 1).put("pattern", &pat).put("scale", "offset"));
+                }
+                // the same network has been through an earlier learn() call (without / with validation data)
+                if (code + tol) % 4 == 0 {
+                    out.push(Kv::new().put("epochs", epochs).put("tol", tol).put("val", 1).put("pattern", &pat).put("pre", "noval"));
+                }
+                if (code + tol) % 4 == 2 {
+                    out.push(Kv::new().put("epochs", epochs).put("tol", tol).put("val", 1).put("pattern", &pat).put("pre", "val"));
                 }
                 for print in [1usize, 2, epochs + 5] {
                     if (code + tol + print) % 3 == 0 {
